@@ -10,7 +10,9 @@ ASSUMPTIONS = ["elements are integers; the algorithms never inspect elements (ge
 
 def generate(r, tier, build):
     k = 1 if tier == "quick" else 20
-    return G.shuf_requests(r, 1200 * k) + G.pshuf_requests(r, 1200 * k) + big_slices(r, (3 if build == "release" else 1) if tier == "quick" else 40)
+    from . import gen_chacha as GC
+    # index() - the draw behind shuffle / choose / single / multiple - on a REAL block generator at every kind of buffer position
+    return (G.shuf_requests(r, 1200 * k) + G.pshuf_requests(r, 1200 * k) + big_slices(r, (3 if build == "release" else 1) if tier == "quick" else 40)) + GC.dist_histories(r, (120 if tier == "quick" else 3000), lambda r: "idx:%d" % r.choice([1, 2, 3, 5, 6, 7, 10, 11, 100, 255, 256, 1000003, (1 << 32) + 1, (1 << 63) + 5, r.range(1, 1 << 40)]))
 
 
 def big_slices(r, count):
@@ -39,6 +41,8 @@ def classify_big(req):
 
 
 def classify(req, model):
+    if req.startswith("chacha"):
+        return "chacha"
     if req.startswith("bigshuf"):
         return "bigshuf"
     d = O.kv(req)
@@ -49,6 +53,8 @@ def classify(req, model):
 
 
 def oracle(req, impl, build):
+    if req.startswith("chacha"):
+        return O.idx_history_oracle(req, impl)
     if req.startswith("bigshuf"):
         # the marks must still be inside the slice, at pairwise different places; the word chosen to realise the LAST position must really
         # reach beyond 2^32 (a 32-bit index cannot)
